@@ -14,7 +14,7 @@ import os
 import pickle
 
 from vlib import wsharness as wh
-from vlib.common import exc_site, fp
+from vlib.common import exc_site, fp, retry_on_timeout
 
 LEVEL = "exploration"
 SHARD_TIMEOUT = {"quick": 280, "thorough": 1700}
@@ -271,16 +271,17 @@ async def amain(spec, acc, ctx, virtual=True):
                         acc.count("exhaustive_incomplete")
                         await server.stop()
                         return
-                    await r.run_sequence(pre + list(rest), gated=False)
+                    await retry_on_timeout(acc, lambda: r.run_sequence(pre + list(rest), gated=False))
                     if "re" in pre + list(rest) or any(x in ("c1", "c2", "u1", "u2", "un") for x in pre + list(rest)):
-                        await r.run_sequence(pre + list(rest), gated=True)
+                        await retry_on_timeout(acc, lambda: r.run_sequence(pre + list(rest), gated=True))
         acc.add("exhaustive_prefixes", "".join(pre))
     elif kind == "rand":
         for i in range(spec["sequences"]):
             if ctx.out_of_time() or acc.counters.get("timeouts", 0) > 3 or acc.n_violations > 25:
                 break
             n = ctx.rng.randint(4, 12)
-            await r.run_sequence([ctx.rng.choice(SYMS) for _ in range(n)], gated=bool(i % 2))
+            sq = [ctx.rng.choice(SYMS) for _ in range(n)]
+            await retry_on_timeout(acc, lambda: r.run_sequence(sq, gated=bool(i % 2)))
     await server.stop()
 
 
